@@ -10,12 +10,14 @@
 (* computes the abstract result exactly (integers / rationals) and         *)
 (*   - appends it to `ws` when it is a container,                          *)
 (*   - or records `rej` (the operation must be rejected with an error),    *)
-(*     `bool`, `list` (iteration), `open` (property prescribes nothing:    *)
+(*     `bool`, `list` (iteration), `arr` (get_array: rationals per bin x   *)
+(*     patch x patch), `open` (property prescribes nothing:                *)
 (*     rejection or the given value), `alts` (several admissible values),  *)
 (*     `nz` (ingredients of the n(z) formula).                             *)
 (* With Focus = TRUE an operation must use the newest container and a      *)
-(* history is only extended below a step that produced a container, i.e.   *)
-(* the explored histories are the genuine compositions op_n(...op_1(x)).   *)
+(* history is only extended below a step that produced a container (or an  *)
+(* array read from it: GetArray), i.e. the explored histories are the      *)
+(* genuine compositions op_n(...op_1(x)).                                  *)
 (* The driver (harness/containers.py, checks/c17.py, checks/c04.py)        *)
 (* executes the same history on the real objects and compares, after each  *)
 (* step, the result AND every older object of the workspace (operations    *)
@@ -45,6 +47,16 @@
 (*  IterBins/IterPatches  iteration over the Indexer (utils/abc.py)        *)
 (*  PatchSum       sample_patch_sum (BinwisePatchwiseArray,                *)
 (*                 PatchedSumWeights.get_array, NormalisedCounts)          *)
+(*  GetArray       get_array() of PatchedCounts / PatchedSumWeights /      *)
+(*                 NormalisedCounts, also reached through the members of   *)
+(*                 a container: x.get_array(), x.counts.get_array(),       *)
+(*                 x.sum_weights.get_array(), cf.dd.get_array(),           *)
+(*                 cf.dd.counts.get_array(), ... (entry.var = "m.LV": the  *)
+(*                 member m ("x" = the container itself) and the level LV  *)
+(*                 whose accessor is called).  A pure read accessor: the   *)
+(*                 result is an array (bin x patch x patch), the workspace *)
+(*                 is unchanged and the history goes on with the SAME      *)
+(*                 newest container (GetArray, then Sample ...).           *)
 (*  Sample         CorrFunc.sample: landy_szalay / davis_peebles           *)
 (*  Redshift       RedshiftData.from_corrfuncs / from_corrdata             *)
 (*  Normalise      HistData.normalised / RedshiftData.normalised           *)
@@ -55,6 +67,9 @@
 (* values are reduced rationals <<num, den>>; <<0, 0>> = undefined (0/0,   *)
 (* x/0: the property prescribes nothing).  Bin edges are integers (the     *)
 (* driver maps edge e to 0.5 + e).                                        *)
+(* A scenario with zero = b > 0 has an EMPTY redshift bin b: no pairs and  *)
+(* no weights there (count levels), an undefined value and undefined       *)
+(* samples there (data levels): the real containers hold NaN in that bin.  *)
 (*                                                                         *)
 (* Deviations (the code as found; the ideal design is Deviations = {}):    *)
 (*  "MulCountAttr"     NormalisedCounts.__mul__ reads self.count           *)
@@ -66,10 +81,12 @@
 (* are not vacuous and are replayed like the others):                      *)
 (*  "LsMixedTwice"        Landy-Szalay with RD counted twice, DR ignored   *)
 (*  "HistNormBeforeWidth" histogram norm taken before the width correction *)
+(*  "NcArrayPairwiseNorm" NormalisedCounts.get_array divides by the        *)
+(*                        patch-pair weight products instead of the total  *)
 (***************************************************************************)
 EXTENDS Integers, Sequences, FiniteSets, TLC
 
-CONSTANTS Scenarios,   \* set of [level, nb, np, auto, mem, seed, closed]
+CONSTANTS Scenarios,   \* set of [level, nb, np, auto, mem, seed, closed, zero]
           Ops,         \* enabled operations (names of the actions)
           MaxDepth,    \* length of the histories
           Focus,       \* TRUE: an operation uses the newest container
@@ -144,28 +161,32 @@ DVal(seed, k, b) == (Mix(seed * 53 + k * 19 + b * 7) % 7) - 2
 
 BaseEdges(nb) == [k \in 1..(nb + 1) |-> ((k - 1) * k) \div 2]  \* 0 1 3 6 10
 
-MakePart(lv, nb, np, auto, seed, m) ==
+(* zero = b > 0: bin b is empty (no pairs, no weights; undefined sampled values) *)
+MakePart(lv, nb, np, auto, seed, m, zero) ==
     [cnt |-> IF lv = "SW" THEN <<>>
              ELSE [b \in 1..nb |-> [i \in 1..np |-> [j \in 1..np |->
-                      CntVal(seed, MI(m), b, i, j, auto)]]],
+                      IF b = zero THEN 0 ELSE CntVal(seed, MI(m), b, i, j, auto)]]],
      sw1 |-> IF lv = "PC" THEN <<>>
-             ELSE [b \in 1..nb |-> [i \in 1..np |-> SwVal(seed, MI(m), 1, b, i, auto)]],
+             ELSE [b \in 1..nb |-> [i \in 1..np |->
+                      IF b = zero THEN 0 ELSE SwVal(seed, MI(m), 1, b, i, auto)]],
      sw2 |-> IF lv = "PC" THEN <<>>
-             ELSE [b \in 1..nb |-> [i \in 1..np |-> SwVal(seed, MI(m), 2, b, i, auto)]]]
+             ELSE [b \in 1..nb |-> [i \in 1..np |->
+                      IF b = zero THEN 0 ELSE SwVal(seed, MI(m), 2, b, i, auto)]]]
 
-MakeValue(lv, nb, np, auto, mem, seed, closed) ==
+MakeValue(lv, nb, np, auto, mem, seed, closed, zero) ==
     IF lv \in DataLevels
     THEN [k |-> lv, auto |-> FALSE, edges |-> BaseEdges(nb), closed |-> closed,
           den |-> 1, parts |-> <<>>,
-          data |-> [b \in 1..nb |-> RInt(DVal(seed, 0, b))],
-          samples |-> [s \in 1..np |-> [b \in 1..nb |-> RInt(DVal(seed, s, b))]]]
+          data |-> [b \in 1..nb |-> IF b = zero THEN Undef ELSE RInt(DVal(seed, 0, b))],
+          samples |-> [s \in 1..np |-> [b \in 1..nb |->
+                          IF b = zero THEN Undef ELSE RInt(DVal(seed, s, b))]]]
     ELSE [k |-> lv, auto |-> auto, edges |-> BaseEdges(nb), closed |-> closed,
           den |-> 1,
           parts |-> [m \in (IF lv = "CF" THEN {"dd"} \cup mem ELSE {"x"}) |->
-                        MakePart(lv, nb, np, auto, seed, m)],
+                        MakePart(lv, nb, np, auto, seed, m, zero)],
           data |-> <<>>, samples |-> <<>>]
 
-Base(s) == MakeValue(s.level, s.nb, s.np, s.auto, s.mem, s.seed, s.closed)
+Base(s) == MakeValue(s.level, s.nb, s.np, s.auto, s.mem, s.seed, s.closed, s.zero)
 
 ---------------------------------------------------------------------------
 (* results of an operation *)
@@ -177,6 +198,7 @@ RList(l)     == [RBase EXCEPT !.out = "list", !.items = l]
 ROpen(v, E)  == [RBase EXCEPT !.out = "open", !.v = v, !.exc = E]
 RAlts(l)     == [RBase EXCEPT !.out = "alts", !.v = l[1], !.items = l]
 RNz(l)       == [RBase EXCEPT !.out = "nz",   !.items = l]
+RArr(arr)    == [RBase EXCEPT !.out = "arr",  !.items = arr]   \* items[b][i][j]: rational
 RInit        == RBase
 (* the fresh operands an action creates are handed to the driver with the result *)
 WithArgs(r, args) == [r EXCEPT !.args = args]
@@ -426,6 +448,36 @@ Sampled(a, kind, f(_, _)) ==   \* f(b, k)
 
 PatchSumOf(a) == RVal(Sampled(a, "SD", LAMBDA b, k : PartValue(a, FirstM(a), b, k)))
 
+(* get_array() of the level lv of member m (bin x patch x patch, rationals):
+     PC  the pair counts;
+     SW  "the product of the sum from patch i from catalog 1 and patch j from
+         catalog 2" (autocorrelation: upper triangle, diagonal halved);
+     NC  the pair counts divided by the normalisation of the bin, which "is
+         computed from all patches and not per patch" (docstring of
+         NormalisedCounts.get_array), i.e. by the total of the SW array;
+         undefined where that total is 0 (an empty bin)                        *)
+ArrOf(a, m, lv) ==
+    LET p == a.parts[m]  P == NP(a) IN
+    [b \in 1..NB(a) |-> [i \in 1..P |-> [j \in 1..P |->
+        CASE lv = "PC" -> Norm(<<p.cnt[b][i][j], a.den>>)
+          [] lv = "SW" -> Norm(<<SwArray(p, a.auto, b, P)[i][j], SwDen(a.auto)>>)
+          [] OTHER ->
+               IF "NcArrayPairwiseNorm" \in Deviations     \* hypothetical, see below
+               THEN Norm(<<p.cnt[b][i][j] * SwDen(a.auto), a.den * SwArray(p, a.auto, b, P)[i][j]>>)
+               ELSE Norm(<<p.cnt[b][i][j] * SwDen(a.auto), a.den * WeightSum(a, m, b, 0)>>)]]]
+GetArrayOf(a, m, lv) == RArr(ArrOf(a, m, lv))
+
+(* the accessors that exist on a container: <<member, level>> *)
+GaTargets(a) ==
+    CASE a.k = "CF" -> {<<m, lv>> : m \in DOMAIN a.parts, lv \in {"NC", "PC", "SW"}}
+      [] a.k = "NC" -> {<<"x", lv>> : lv \in {"NC", "PC", "SW"}}
+      [] a.k \in {"PC", "SW"} -> {<<"x", a.k>>}
+      [] OTHER -> {}
+(* sum_ij arr[i][j] without row/column k (k = 0: everything), rationals *)
+RTot(arr, P, k) ==
+    RSumF([i \in 1..P |-> IF i = k THEN RInt(0)
+                          ELSE RSumF([j \in 1..P |-> IF j = k THEN RInt(0) ELSE arr[i][j]], P)], P)
+
 (* estimators on the normalised totals *)
 LS(dd, dr, rd, rr) == RDiv(RAdd(RSub(RSub(dd, dr), rd), rr), rr)
 DP(dd, mixed) == RSub(RDiv(dd, mixed), RInt(1))
@@ -560,8 +612,10 @@ Init == /\ scen \in Scenarios
         /\ res = RInit
 
 (* with Focus a history is only extended below a step that produced a container
-   (nothing new can be learnt after a bool / rejection: purity is checked at once) *)
-Extendable == ~Focus \/ hist = <<>> \/ res.out \in {"val", "alts"}
+   (nothing new can be learnt after a bool / rejection: purity is checked at once)
+   or handed out an array of the newest container (GetArray: the caller holds a
+   view of the container's numbers; what follows uses the same container) *)
+Extendable == ~Focus \/ hist = <<>> \/ res.out \in {"val", "alts", "arr"}
 
 Step(entry, r) ==
     /\ Len(hist) < MaxDepth /\ Extendable
@@ -602,10 +656,13 @@ Mul(i, sc) ==
 Eq(i, j) ==
     /\ Focused(i, j)
     /\ Step(HEntry("Eq", i, j, "", NoSel, NoScalar, FALSE), EqOfS(ws[i], ws[j], i = j))
+(* var = "copy": a structurally identical second object (the driver deep-copies the
+   real one: the very same floats, undefined ones included) must compare equal *)
+EqVarOf(a, var) == IF var = "copy" THEN EqOfS(a, a, TRUE) ELSE EqOf(a, VariantOf(a, var))
 EqVar(i, var) ==
     /\ Focused(i, i) /\ var \in EqVariantsFor(ws[i])
     /\ Step(HEntry("EqVar", i, 0, var, NoSel, NoScalar, FALSE),
-            WithArgs(EqOf(ws[i], VariantOf(ws[i], var)), <<VariantOf(ws[i], var)>>))
+            WithArgs(EqVarOf(ws[i], var), <<VariantOf(ws[i], var)>>))
 IsCompat(i, j, req) ==
     /\ Focused(i, j)
     /\ Step(HEntry("IsCompat", i, j, "", NoSel, NoScalar, req), IsCompatOf(ws[i], ws[j], req))
@@ -628,6 +685,10 @@ IterPatches(i) ==
 PatchSum(i) ==
     /\ Focused(i, i) /\ ws[i].k \in {"PC", "SW", "NC"}
     /\ Step(HEntry("PatchSum", i, 0, "", NoSel, NoScalar, FALSE), PatchSumOf(ws[i]))
+(* entry.var = "m.LV", e.g. "x.PC", "x.SW", "dd.NC", "rr.SW" *)
+GetArray(i, m, lv) ==
+    /\ Focused(i, i) /\ ws[i].k \in PatchLevels /\ <<m, lv>> \in GaTargets(ws[i])
+    /\ Step(HEntry("GetArray", i, 0, m \o "." \o lv, NoSel, NoScalar, FALSE), GetArrayOf(ws[i], m, lv))
 Sample(i) ==
     /\ Focused(i, i) /\ ws[i].k = "CF"
     /\ Step(HEntry("Sample", i, 0, "", NoSel, NoScalar, FALSE), SampleOf(ws[i]))
@@ -635,7 +696,7 @@ Sample(i) ==
 (* RedshiftData.from_corrfuncs(cross, ref, unk): ref/unk are autocorrelation
    CorrFuncs of the shape of cross (contents: seed + 1 / + 2, members rmem / umem:
    {} = absent); the result is the n(z) ingredient triple of the three samples *)
-AutoCF(a, seed, mem) == [MakeValue("CF", NB(a), NP(a), TRUE, mem, seed, a.closed) EXCEPT !.edges = a.edges]
+AutoCF(a, seed, mem) == [MakeValue("CF", NB(a), NP(a), TRUE, mem, seed, a.closed, 0) EXCEPT !.edges = a.edges]
 SampleOrNull(mem, cf) == IF mem = {} THEN RVal(Null) ELSE SampleOf(cf)
 RedshiftCFOf(cross, s, rmem, umem) ==
     LET sc == SampleOf(cross)
@@ -695,6 +756,7 @@ SomeIterBins  == \E i \in Idx : IterBins(i)
 SomeIterPatches == \E i \in Idx : IterPatches(i)
 SomePatchSum  == \E i \in Idx : PatchSum(i)
 SomeSample    == \E i \in Idx : Sample(i)
+SomeGetArray  == \E i \in Idx, m \in {"x", "dd", "dr", "rd", "rr"}, lv \in {"PC", "SW", "NC"} : GetArray(i, m, lv)
 SomeRedshiftCF == \E i \in Idx, rmem \in AutoMems, umem \in AutoMems : RedshiftCF(i, rmem, umem)
 SomeRedshiftCD == \E i \in Idx, j \in {0} \cup Idx, l \in {0} \cup Idx : RedshiftCD(i, j, l)
 SomeRedshiftCDVar == \E i \in Idx, var \in {"counts", "edges", "nbins", "npatch"} : RedshiftCDVar(i, var)
@@ -708,7 +770,7 @@ Done == Len(hist) = MaxDepth \/ ~Extendable
 Next == \/ SomeAdd \/ SomeSub \/ SomeAddVar \/ SomeSubVar \/ SomeRAdd \/ SomeMul
         \/ SomeEq \/ SomeEqVar \/ SomeIsCompat \/ SomeIsCompatVar
         \/ SomeBins \/ SomePatches \/ SomeIterBins \/ SomeIterPatches
-        \/ SomePatchSum \/ SomeSample
+        \/ SomePatchSum \/ SomeSample \/ SomeGetArray
         \/ SomeRedshiftCF \/ SomeRedshiftCD \/ SomeRedshiftCDVar \/ SomeNormalise
         \/ SomeConstruct
         \/ (Done /\ UNCHANGED vars)
@@ -813,6 +875,21 @@ NormaliserLaw ==
             (a.auto => a.parts[m].sw1 = a.parts[m].sw2) =>
             REq(<<WeightSum(a, m, bb, k), SwDen(a.auto)>>,
                 NormaliserLawValue(a.parts[m], a.auto, bb, NP(a), k))
+(* get_array: the array of a level sums (over patch pairs, also without patch k) to what
+   sample_patch_sum of that level reports; the normalised counts are the counts over the
+   bin's normalisation (all patches), so they sum to the normalised total only for k = 0 *)
+GetArrayLaw ==
+    \A a \in {c \in Containers : c.k \in PatchLevels} : \A t \in GaTargets(a) :
+        LET m == t[1]  lv == t[2]  P == NP(a)
+            arr == ArrOf(a, m, lv)
+            view == [a EXCEPT !.k = lv]
+        IN  \A bb \in 1..NB(a) :
+              /\ REq(RTot(arr[bb], P, 0), PartValue(view, m, bb, 0))
+              /\ (lv # "NC" => \A k \in 1..P : REq(RTot(arr[bb], P, k), PartValue(view, m, bb, k)))
+              /\ (lv = "NC" => \A i \in 1..P : \A j \in 1..P :
+                     \/ ~IsDef(arr[bb][i][j]) /\ WeightSum(a, m, bb, 0) = 0
+                     \/ REq(RMul(arr[bb][i][j], <<WeightSum(a, m, bb, 0), SwDen(a.auto)>>),
+                            ArrOf(a, m, "PC")[bb][i][j]))
 JackknifeShortcut ==
     \A a \in CountC : \A m \in DOMAIN a.parts : \A bb \in 1..NB(a) : \A k \in 1..NP(a) :
         TotWithout(a.parts[m].cnt[bb], NP(a), k) = TotTrick(a.parts[m].cnt[bb], NP(a), k)
@@ -870,9 +947,9 @@ Validity(h) ==
       [] h.op = "RAdd" -> IF h.j # 0 THEN BinaryValidity(a, ws[h.j])
                           ELSE IF h.sel.lo = 0 THEN "valid" ELSE "invalid"
       [] h.op = "Mul" -> IF h.sc.cls \in ValidScalarClasses THEN "valid" ELSE "invalid"
-      [] h.op \in {"IterBins", "IterPatches", "PatchSum"} -> "valid"
+      [] h.op \in {"IterBins", "IterPatches", "PatchSum", "GetArray"} -> "valid"
       [] h.op = "Eq" -> IF EqOfS(a, ws[h.j], h.i = h.j).out = "open" THEN "open" ELSE "valid"
-      [] h.op = "EqVar" -> IF EqOf(a, VariantOf(a, h.var)).out = "open" THEN "open" ELSE "valid"
+      [] h.op = "EqVar" -> IF h.var # "copy" /\ EqOf(a, VariantOf(a, h.var)).out = "open" THEN "open" ELSE "valid"
       [] h.op = "IsCompat" -> CompatValidity(a, ws[h.j], h.req)
       [] h.op = "IsCompatVar" -> CompatValidity(a, VariantOf(a, h.var), h.req)
       [] h.op = "Bins" -> SelValidity(h.sel, NB(a))
